@@ -24,10 +24,11 @@ var (
 
 // c05GenCfg tunes the shape generator for the rule that uses it.
 type c05GenCfg struct {
-	tag       string   // tag key
-	keyStyles []string // admissible key styles ("" = field name)
-	conf      bool     // conf rule: restrict to what the conf sentence of the statement covers
-	maxDepth  int
+	tag        string   // tag key
+	keyStyles  []string // admissible key styles ("" = field name)
+	conf       bool     // conf rule: restrict to what the conf sentence of the statement covers
+	noCompiled bool     // no compiled struct types (their tags and keys are fixed)
+	maxDepth   int
 }
 
 func c05Pick[T any](rt *rapid.T, label string, xs []T) T {
@@ -73,6 +74,9 @@ func c05BigSize(rt *rapid.T, tiers [][]int) int {
 	return c05Pick(rt, "bigsize", tiers[0])
 }
 
+// c05GenDefined: about one type in six is the defined (named) variant.
+func c05GenDefined(rt *rapid.T) bool { return rapid.IntRange(0, 5).Draw(rt, "defined") == 3 }
+
 func c05GenScalarKind(rt *rapid.T, allowDur bool) string {
 	k := c05W(rt, "kind", []string{"bool", "intk", "float32", "float64", "string", "dur", "text"}, []int{10, 45, 8, 10, 18, 7, 3})
 	switch k {
@@ -104,17 +108,22 @@ func c05GenElem(rt *rapid.T, cfg *c05GenCfg, depth, cdepth int) *c05Typ {
 	}
 	switch c05W(rt, "elem", names, weights) {
 	case "pscalar":
-		return &c05Typ{K: c05GenScalarKind(rt, false), P: true}
-	case "struct":
+		return &c05Typ{K: c05GenScalarKind(rt, false), P: true, D: c05GenDefined(rt)}
+	case "struct", "pstruct":
+		if c05CompiledTags[cfg.tag] && !cfg.noCompiled && rapid.IntRange(0, 5).Draw(rt, "compiledelem") == 2 {
+			_, desc := c05Compiled("addr", cfg.tag)
+			return &c05Typ{K: "struct", C: "addr", F: desc, P: c05W(rt, "elem", names, weights) == "pstruct"}
+		}
+		if c05W(rt, "elemptr", []string{"struct", "pstruct"}, []int{weights[2] + 1, weights[3] + 1}) == "pstruct" {
+			return &c05Typ{K: "struct", P: true, F: c05GenFields(rt, cfg, depth+1, 3, "")}
+		}
 		return &c05Typ{K: "struct", F: c05GenFields(rt, cfg, depth+1, 3, "")}
-	case "pstruct":
-		return &c05Typ{K: "struct", P: true, F: c05GenFields(rt, cfg, depth+1, 3, "")}
 	case "slice":
-		return &c05Typ{K: "slice", E: c05GenElem(rt, cfg, depth, cdepth+1)}
+		return &c05Typ{K: "slice", E: c05GenElem(rt, cfg, depth, cdepth+1), D: c05GenDefined(rt)}
 	case "map":
-		return &c05Typ{K: "map", E: c05GenElem(rt, cfg, depth, cdepth+1)}
+		return &c05Typ{K: "map", E: c05GenElem(rt, cfg, depth, cdepth+1), D: c05GenDefined(rt), DK: rapid.IntRange(0, 15).Draw(rt, "definedkey") == 7}
 	}
-	return &c05Typ{K: c05GenScalarKind(rt, false)}
+	return &c05Typ{K: c05GenScalarKind(rt, false), D: c05GenDefined(rt)}
 }
 
 func c05GenFields(rt *rapid.T, cfg *c05GenCfg, depth, maxN int, prefix string) []c05Fld {
@@ -181,25 +190,34 @@ func c05GenField(rt *rapid.T, cfg *c05GenCfg, depth int, prefix string, idx int)
 		weights[4], weights[5], weights[6] = 0, 0, 0
 	}
 	shape := c05W(rt, "ftype", names, weights)
+	compiled := c05CompiledTags[cfg.tag] && !cfg.noCompiled
 	switch shape {
 	case "scalar":
-		f.T = c05Typ{K: c05GenScalarKind(rt, true)}
+		f.T = c05Typ{K: c05GenScalarKind(rt, true), D: c05GenDefined(rt)}
 	case "pscalar":
-		f.T = c05Typ{K: c05GenScalarKind(rt, true), P: true}
+		f.T = c05Typ{K: c05GenScalarKind(rt, true), P: true, D: c05GenDefined(rt)}
 	case "slice":
-		f.T = c05Typ{K: "slice", E: c05GenElem(rt, cfg, depth, 1)}
+		f.T = c05Typ{K: "slice", E: c05GenElem(rt, cfg, depth, 1), D: c05GenDefined(rt)}
 	case "map":
-		f.T = c05Typ{K: "map", E: c05GenElem(rt, cfg, depth, 1)}
-	case "struct":
-		f.T = c05Typ{K: "struct", F: c05GenFields(rt, cfg, depth+1, 4, "")}
-	case "pstruct":
-		f.T = c05Typ{K: "struct", P: true, F: c05GenFields(rt, cfg, depth+1, 4, "")}
+		f.T = c05Typ{K: "map", E: c05GenElem(rt, cfg, depth, 1), D: c05GenDefined(rt), DK: rapid.IntRange(0, 15).Draw(rt, "definedkey") == 7}
+	case "struct", "pstruct":
+		if compiled && rapid.IntRange(0, 4).Draw(rt, "compiled") == 2 {
+			_, desc := c05Compiled("addr", cfg.tag)
+			f.T = c05Typ{K: "struct", C: "addr", F: desc, P: shape == "pstruct"}
+		} else {
+			f.T = c05Typ{K: "struct", F: c05GenFields(rt, cfg, depth+1, 4, ""), P: shape == "pstruct"}
+		}
 	case "embedded":
 		pre := prefix
 		if pre == "" {
 			pre = "e"
 		}
 		f.T = c05Typ{K: "struct", F: c05GenFields(rt, cfg, depth+1, 3, pre+string(rune('a'+idx)))}
+		if compiled && prefix == "" && idx == 0 && rapid.IntRange(0, 2).Draw(rt, "compiledbase") == 1 {
+			// a compiled struct type embedded (only as the first field: its keys are fixed)
+			_, desc := c05Compiled("base", cfg.tag)
+			f.T = c05Typ{K: "struct", C: "base", F: desc}
+		}
 		f.Anon = true
 		f.Tag = ""
 		if !cfg.conf && rapid.IntRange(0, 9).Draw(rt, "embopt") == 0 {
@@ -209,7 +227,7 @@ func c05GenField(rt *rapid.T, cfg *c05GenCfg, depth int, prefix string, idx int)
 		return f
 	}
 	structDefault := false
-	if shape == "slice" && f.T.E.K == "struct" && rapid.IntRange(0, 9).Draw(rt, "structdefault") < 4 {
+	if shape == "slice" && f.T.E.K == "struct" && f.T.E.C == "" && rapid.IntRange(0, 9).Draw(rt, "structdefault") < 4 {
 		// []struct (or []*struct) with default=[{...},{}]: the element struct must be satisfiable by {}
 		// and carries its own defaulted slice field
 		structDefault = true
